@@ -36,8 +36,11 @@ Flatten(ss) == IF ss = <<>> THEN <<>> ELSE Head(ss) \o Flatten(Tail(ss))
 
 AllPvers == <<0, 208, 209, 31401, 31402, 60000, 60001, 60002, 70000, 70001, 70002,
               70010, 70011, 70012, 70013, 70015, 70016, 70017>>
+\* types whose layout, gate or payload bound depends on the protocol version
+PverTypes == {"version", "addr", "ping", "pong", "mempool", "filterload", "filteradd", "filterclear", "merkleblock",
+              "reject", "sendheaders", "feefilter", "sendaddrv2", "wtxidrelay"}
 PversOf(type) ==
-    IF Thorough THEN (IF type \in {"tx", "block"} THEN <<0, 209, 70001, 70016, 70017>> ELSE AllPvers)
+    IF Thorough THEN (IF type \in PverTypes THEN AllPvers ELSE <<0, 209, 60002, 70001, 70016, 70017>>)
     ELSE CASE type = "version" -> <<31401, 31402, 70000, 70001, 70016>>
            [] type = "addr" -> <<208, 209, 31401, 31402, 70016>>
            [] type \in {"ping", "pong"} -> <<60000, 60001, 70016>>
@@ -48,7 +51,10 @@ PversOf(type) ==
            [] type = "feefilter" -> <<70012, 70013, 70016>>
            [] type \in {"sendaddrv2", "wtxidrelay", "addrv2"} -> <<70015, 70016, 70017>>
            [] OTHER -> <<70016>>
-EncsOf(type) == IF type \in {"tx", "block"} \/ Thorough THEN <<"base", "witness">> ELSE <<"witness">>
+\* the message encoding matters to transactions and blocks only: both there, alternating elsewhere
+EncsOf(type, pver) ==
+    IF type \in {"tx", "block"} THEN <<"base", "witness">>
+    ELSE IF Thorough /\ pver % 2 = 1 THEN <<"base">> ELSE <<"witness">>
 
 -----------------------------------------------------------------------------
 (* shapes: the values of each type that are enumerated *)
@@ -85,13 +91,15 @@ TxLegacy == Tx(<<Run(1, In(107, <<>>)), Run(1, In(0, <<>>))>>, <<Run(1, Out(25))
 TxSegwit == Tx(<<Run(1, In(0, <<Run(1, It(72)), Run(1, It(33))>>)), Run(1, In(23, <<>>))>>, <<Run(1, Out(34))>>)
 TxCoinbase == Tx(<<Run(1, In(4, <<Run(1, It(32))>>))>>, <<Run(1, Out(25)), Run(1, Out(38))>>)
 
-QuickTxShapes == {"min", "legacy", "segwit-mixed", "coinbase", "empty-witness-item", "no-outputs", "no-inputs",
+QuickTxShapes == {"superfluous-flag", "min", "legacy", "segwit-mixed", "coinbase", "empty-witness-item", "no-outputs", "no-inputs",
                   "no-inputs-no-outputs", "no-inputs-two-outputs", "in-253-witness", "out-253", "wit-items-253",
                   "script-253", "script-65536", "in-65536", "script-max", "script-max+1", "slab-full", "slab-over"}
 AllTxShapes ==
     <<Sh("min", TxMin), Sh("legacy", TxLegacy), Sh("segwit-mixed", TxSegwit), Sh("coinbase", TxCoinbase),
       Sh("empty-witness-item", Tx(<<Run(1, In(0, <<Run(1, It(0)), Run(1, It(1))>>))>>, <<Run(1, Out(1))>>)),
       Sh("no-outputs", Tx(<<Run(1, In(1, <<>>))>>, <<>>)),
+      \* segwit marker and flag, but every witness stack is empty
+      Sh("superfluous-flag", [ins |-> <<Run(2, In(1, <<>>))>>, outs |-> <<Run(1, Out(1))>>, force |-> TRUE]),
       Sh("no-inputs", Tx(<<>>, <<Run(1, Out(1))>>)),
       Sh("no-inputs-no-outputs", Tx(<<>>, <<>>)),
       Sh("no-inputs-two-outputs", Tx(<<>>, <<Run(2, Out(3))>>)),
@@ -231,7 +239,7 @@ ViaFrame(c, ts) ==
         r == ReadFrame(c.type, c.pver, c.enc,
                        [hdr |-> 24, len |-> sz, magic |-> "ok", cmd |-> "ok", sum |-> "ok", avail |-> sz, pay |-> ts])
         d == Dec(c.type, c.pver, c.enc, ts)
-    IN  [res |-> r.res, left |-> FALSE, x |-> IF r.res = "ok" THEN d.x ELSE <<>>,
+    IN  [res |-> r.res, left |-> FALSE, x |-> IF d.res = "ok" THEN d.x ELSE <<>>,
          raw |-> d.res]
 \* through Deserialize: bytes after the value are simply not read
 ViaSer(c, ts) ==
@@ -300,7 +308,7 @@ ProbeShape(type) ==
       [] type = "merkleblock" -> "hashes-1"
       [] type \in {"filteradd", "cfilter"} -> "data-1"
       [] OTHER -> "n-1"
-Probe(c) == c.shape = ProbeShape(c.type) /\ (Thorough \/ c.pver = PversOf(c.type)[Len(PversOf(c.type))])
+Probe(c) == c.shape = ProbeShape(c.type) /\ c.pver = PversOf(c.type)[Len(PversOf(c.type))]
 HostileVariants(c, toks) ==
     LET sites == ViSites(toks, <<>>)
         one(s) == LET vs == HostileValues(s.t, ViLimitT(c.type, s.t.f), Probe(c))
@@ -365,6 +373,12 @@ FrameVariants(c, toks) ==
           fv("stream-body-1", [base EXCEPT !.avail = IF sz > 0 THEN sz - 1 ELSE 0])>>
     IN  SelectSeq(all, LAMBDA f : f.reached => f.len = sz)
 
+\* can the binder build the value and hand it to the encoder?
+Encodable(c) ==
+    CASE c.type = "addrv2" -> \A r \in 1..Len(c.m.addrs) : A2Encodable(c.m.addrs[r].e)
+      [] c.type = "tx" -> "force" \notin DOMAIN c.m
+      [] OTHER -> TRUE
+
 \* is the value inside the domain on which the encoding must round trip?
 \* (lists within their limits; a segwit serialisation needs an input; the scripts of a
 \* transaction fit the shared buffer)
@@ -380,6 +394,7 @@ TxInDomain(tx, enc) ==
     /\ \A r \in 1..Len(tx.outs) : tx.outs[r].e.pk <= MaxScriptLen
 InDomain(c) ==
     /\ EncRes(c.type, c.pver, c.enc, c.m) = "ok"
+    /\ Encodable(c)
     /\ CASE c.type = "tx" -> TxInDomain(c.m, c.enc)
          [] c.type = "block" -> /\ RunsLen(c.m.txs) <= MaxTxPerBlock
                                 /\ \A r \in 1..Len(c.m.txs) : TxInDomain(c.m.txs[r].e, c.enc)
@@ -393,11 +408,6 @@ InDomain(c) ==
 \* values only a peer can produce (short version messages, foreign addrv2 entries) the
 \* layout as received
 Input(c) == IF c.type = "version" THEN RawVersion(c.m) ELSE Enc(c.type, c.pver, c.enc, c.m)
-\* can the binder build the value and hand it to the encoder?
-Encodable(c) ==
-    CASE c.type = "addrv2" -> \A r \in 1..Len(c.m.addrs) : A2Encodable(c.m.addrs[r].e)
-      [] OTHER -> TRUE
-
 Variants(c) ==
     LET toks == Input(c)
     IN  TruncVariants(c, toks) \o NonCanonVariants(c, toks) \o HostileVariants(c, toks)
@@ -411,7 +421,7 @@ Expect(c) ==
     IN  [ tokens |-> toks,
           \* what the encoder writes for the value (differs from tokens only for version)
           enctokens |-> IF etoks = toks THEN <<>> ELSE etoks,
-          size |-> Size(c.type, c.pver, c.enc, c.m),
+          size |-> IF Encodable(c) THEN Size(c.type, c.pver, c.enc, c.m) ELSE SeqSize(toks),
           encodable |-> Encodable(c),
           encres |-> EncRes(c.type, c.pver, c.enc, c.m),
           write |-> IF c.api = "msg" THEN WriteFrame(c.type, c.pver, c.enc, c.m) ELSE EncRes(c.type, c.pver, c.enc, c.m),
@@ -419,7 +429,9 @@ Expect(c) ==
           indomain |-> InDomain(c),
           probe |-> Probe(c),
           dec |-> d.res,
-          back |-> IF d.res = "ok" THEN d.x ELSE <<>>,
+          \* the decoder of the message type itself, without the frame
+          rawdec |-> d.raw,
+          back |-> d.x,
           canon |-> d.res = "ok" /\ ReEnc(c.type, c.pver, c.enc, d.x) = toks,
           reenc |-> IF d.res = "ok" /\ ReEnc(c.type, c.pver, c.enc, d.x) # toks THEN ReEnc(c.type, c.pver, c.enc, d.x) ELSE <<>>,
           lenient |-> IF d.res = "ok" /\ ReEnc(c.type, c.pver, c.enc, d.x) # toks THEN Leniency(c.type, c.pver, d.x) ELSE "",
@@ -458,15 +470,20 @@ Group ==
 \* witness encoding: its input count 00 is taken for the segwit marker and its output count
 \* 01 for the flag, and what follows is parsed out of step (BIP144's known ambiguity; the
 \* verdict depends on the field contents, which the token level does not have).
+\* The shapes at the largest counts (encodings of tens of megabytes) do not depend on the
+\* protocol version: they are enumerated at one version.
+HeavyShapes == {"in-max", "in-max+1", "out-max", "out-max+1", "wit-items-max", "wit-items-max+1",
+                "tx-max", "tx-max+1", "tx-65536", "hashes-max", "hashes-max+1"}
 Enumerated(c) ==
-    ~(c.type = "tx" /\ c.enc = "witness" /\ RunsLen(c.m.ins) = 0 /\ RunsLen(c.m.outs) = 1)
+    /\ ~(c.type = "tx" /\ c.enc = "witness" /\ RunsLen(c.m.ins) = 0 /\ RunsLen(c.m.outs) = 1)
+    /\ (c.shape \in HeavyShapes => c.pver \in {0, 70016})
 
 Pick ==
     /\ case.kind = "group"
-    /\ \E i \in 1..Len(Shapes(case.type)) : \E j \in 1..Len(EncsOf(case.type)) :
+    /\ \E i \in 1..Len(Shapes(case.type)) : \E j \in 1..Len(EncsOf(case.type, case.pver)) :
           LET sh == Shapes(case.type)[i]
               c == [kind |-> "case", api |-> case.api, type |-> case.type, pver |-> case.pver,
-                    enc |-> EncsOf(case.type)[j], shape |-> sh.name, m |-> sh.m]
+                    enc |-> EncsOf(case.type, case.pver)[j], shape |-> sh.name, m |-> sh.m]
           IN  /\ Enumerated(c)
               /\ case' = c
               /\ expect' = Expect(c) @@ [variants |-> Variants(c), frames |-> Frames(c)]
@@ -496,7 +513,7 @@ RoundTripLaw ==
 
 \* Size(m) = Len(Encode(m)), whether or not the value is in the domain
 SizeLaw ==
-    IsCase =>
+    IsCase /\ Encodable(C) =>
         /\ expect.size = SeqSize(Enc(C.type, C.pver, C.enc, C.m))
         /\ (C.type = "tx" => /\ expect.stripsize = SeqSize(EncTx(C.m, "base"))
                              /\ expect.fullsize = SeqSize(EncTx(C.m, "witness")))
@@ -553,7 +570,7 @@ HostileLaw ==
 
 \* txid ignores the witness tokens, wtxid includes them, equal iff no witness
 TxIdLaw ==
-    IsCase /\ C.type = "tx" =>
+    IsCase /\ C.type = "tx" /\ Encodable(C) =>
         /\ TxidTokens(C.m) = EncTx(C.m, "base")
         /\ EncTx(StripTx(C.m), "witness") = EncTx(C.m, "base")
         /\ (TxidTokens(C.m) = WtxidTokens(C.m)) <=> ~HasWit(C.m)
